@@ -29,6 +29,8 @@ def gen_content_cases(ctx, n, cid0):
     out = []
     for k in range(n):
         preset = "diag_mclmc" if k % 3 == 2 else "diag_nuts"
+        if k % 4 == 3:
+            preset = "lowrank_nuts"
         dim = r.randint(2, 3) if preset == "diag_mclmc" else r.randint(1, 3)
         nt = r.choice([40, 50, 64, 80, 100, 130, 160, 200]) if r.random() < 0.6 else r.randint(40, 200)
         prec = [r.choice([0.25, 1.0, 4.0, 100.0]) for _ in range(dim)]
@@ -43,7 +45,7 @@ def gen_content_cases(ctx, n, cid0):
              "prec": prec, "mu": mu,
              "init": [mu[i] + r.choice([-0.5, -0.2, 0.3]) / math.sqrt(prec[i]) for i in range(dim)]}
         c["init"][0] = mu[0] - 0.3 * sd0
-        if preset == "diag_nuts":
+        if preset in ("diag_nuts", "lowrank_nuts"):
             c["method"] = r.choice(["dual", "dual", "adam"])
             c["jitter"] = r.choice([None, 0.1])
         else:
@@ -161,7 +163,63 @@ def goods_of(c, out):
 
 
 def wants_content(c, prop):
-    return prop == "C09" and c["preset"] in DIAG and bool(c.get("content"))
+    return prop == "C09" and (c["preset"] in DIAG or c["preset"] == "lowrank_nuts") and bool(c.get("content"))
+
+
+def content_tie_lowrank(ctx, todo, outs, models, broken, stats):
+    """The window of the low-rank estimator (positions and gradients it holds, oldest first, and
+    the start of its background part) equals, after every warmup draw, the draws listed in the
+    model's foreground / background windows (the eigen-decomposition built from them is not tied)."""
+    nbad, ncmp, ncases, nsw = 0, 0, 0, 0
+    for c in todo:
+        if c["preset"] != "lowrank_nuts" or not wants_content(c, ctx.prop) or c["id"] in broken:
+            continue
+        out, model = outs[c["id"]], models[c["id"]]
+        if out.get("set_position") != "ok" or not model or model[0][0] == -2:
+            continue
+        ci = out.get("content_init")
+        draws = [d for d in out["draws"] if "draw" in d]
+        if not ci or any(not d["hook"].get("content") for d in draws):
+            continue
+        ncases += 1
+        pts = {-1: (ci["x"], ci["g"])}
+        for i, d in enumerate(draws):
+            pts[i] = (d["hook"]["content"]["x"], d["hook"]["content"]["g"])
+        prev_split = None
+        for i, d in enumerate(draws):
+            if i >= c["num_tune"]:
+                break
+            m = model[i + 2]
+            if -3 not in m:
+                continue
+            k = m.index(-3)
+            fg, bg_len = m[k + 1:], m[k - 1]
+            ct = d["hook"]["content"]
+            want_x = [pts[t][0] for t in fg]
+            want_g = [pts[t][1] for t in fg]
+            ncmp += 1
+            what = None
+            if len(ct["lr_draws"]) != len(fg):
+                what = "holds %d draws, the schedule's foreground window has %d (%s)" % (len(ct["lr_draws"]), len(fg), fg)
+            elif any(not all(_same_bits(a, b) for a, b in zip(u, w)) for u, w in zip(ct["lr_draws"], want_x)):
+                j = next(j for j, (u, w) in enumerate(zip(ct["lr_draws"], want_x)) if not all(_same_bits(a, b) for a, b in zip(u, w)))
+                what = "position %d of its window is not the state of draw %s (window %s)" % (j, fg[j], fg)
+            elif any(not all(_same_bits(a, b) for a, b in zip(u, w)) for u, w in zip(ct["lr_grads"], want_g)):
+                j = next(j for j, (u, w) in enumerate(zip(ct["lr_grads"], want_g)) if not all(_same_bits(a, b) for a, b in zip(u, w)))
+                what = "gradient %d of its window is not the gradient at draw %s (window %s)" % (j, fg[j], fg)
+            elif ct["lr_split"] != len(fg) - bg_len:
+                what = "background part starts at %d, the schedule says %d (foreground %d, background %d draws)" % (ct["lr_split"], len(fg) - bg_len, len(fg), bg_len)
+            if prev_split is not None and ct["lr_split"] != prev_split:
+                nsw += 1
+            prev_split = ct["lr_split"]
+            if what:
+                nbad += 1
+                if nbad <= 3:
+                    violation(ctx, "implementation violates C09: after draw %d the low-rank estimator %s" % (i, what),
+                              {"case": c, "draw": i, "window_tags": fg, "replay": "echo '<case json>' | build/target/debug/schedule"}, found_input=True)
+                break
+    stats["content_lowrank"] = {"cases": ncases, "windows_compared": ncmp, "switches_seen": nsw}
+    ctx.oblig("content-tie-lowrank-window", nbad == 0 and ncases > 0 and nsw > 0, json.dumps(stats["content_lowrank"]))
 
 
 def model_expr(c, out, prop=None):
@@ -520,7 +578,7 @@ def content_tie(ctx, todo, outs, models, broken, stats):
     exprs, costs, meta = [], [], []
     spent = 0
     skipped_budget = 0
-    cs = [c for c in todo if wants_content(c, ctx.prop) and c["id"] not in broken]
+    cs = [c for c in todo if wants_content(c, ctx.prop) and c["preset"] in DIAG and c["id"] not in broken]
     # dedicated content cases (several switches) first, then the random ones
     cs.sort(key=lambda c: (0 if "mu" in c else 1, c["id"]))
     byid = {c["id"]: c for c in cs}
@@ -706,6 +764,7 @@ def run(ctx):
     # 3b. content of the estimators behind every installed diagonal transformation
     if prop == "C09":
         content_tie(ctx, todo, outs, models, broken, stats)
+        content_tie_lowrank(ctx, todo, outs, models, broken, stats)
     # 4. which acceptance statistic feeds the step-size adaptation (binary64, bit-exact)
     exprs2, meta = hbar_checks(todo, outs, models)
     if exprs2 and prop == "C09":
